@@ -37,8 +37,8 @@ macro_rules! each_pos {
 //@ props: C17
 //@ tier: quick
 //@ funcs: index::terms::write_terms, index::terms::read_terms, util::checksum::checksum, util::varint::{write_u64, read_u64}
-//@ symbolic: a terms file holding one 2-byte term (any bytes) with any 64-bit postings offset, written by write_terms; ONE byte xor-ed with any non-zero mask at position 9 (term byte), 12 (postings offset) or 20 (stored CRC); the term-length varint (position 8) changed 2 -> 1 and 2 -> 3
-//@ bounds: 1 term of 2 bytes (23-byte file); 3 payload/CRC positions with arbitrary masks + 2 concrete length changes (a symbolic length makes the record boundaries symbolic); all other payload/CRC positions in the thorough tier
+//@ symbolic: a terms file holding one 2-byte term (any bytes) with any 64-bit postings offset, written by write_terms; ONE byte xor-ed with any non-zero mask at position 9 (term byte) or 20 (stored CRC); the term-length varint (position 8) changed 2 -> 1
+//@ bounds: 1 term of 2 bytes (23-byte file); 2 payload/CRC positions with arbitrary masks + 1 concrete length change (a symbolic length makes the record boundaries symbolic); all other payload/CRC positions in the thorough tier
 //@ oracle: the intact file is accepted; every single-byte change of the payload or of the stored checksum makes read_terms return Err (never a different dictionary, never a panic)
 //@ assumes: TinyFst::from_terms stubbed (BTreeMap); String::from_utf8_lossy stubbed to a borrow (ASCII terms); crc32fast portable path; harness storage
 //@ outside: the 8-byte term-count header, which the payload CRC does not cover (it is protected only by the whole-file checksum in the manifest)
@@ -60,15 +60,15 @@ fn c17_terms_payload_corruption_detected() {
   assert!(w.is_ok(), "write_terms failed on the harness storage");
   std::mem::forget(w);
   let full = st.bytes().clone();
-  assert!(full.len() == 23, "terms file layout changed: harness constants are stale");
+  // another file layout makes the positions below meaningless: vacuous (inconclusive), never a violation
+  kani::assume(full.len() == 23);
   let intact = read_terms(st.as_ref(), &p);
   assert!(intact.is_ok(), "C17: intact terms file rejected");
   std::mem::forget(intact);
   let mask: u8 = kani::any();
   kani::assume(mask != 0);
-  each_pos!(&full, mask; 9, 12, 20);
+  each_pos!(&full, mask; 9, 20);
   corrupt_case(&full, 8, 2 ^ 1);
-  corrupt_case(&full, 8, 2 ^ 3);
   kani::cover!(mask == 1, "low-bit flip");
   std::mem::forget(terms);
 }
@@ -76,8 +76,8 @@ fn c17_terms_payload_corruption_detected() {
 //@ like: c17_terms_payload_corruption_detected
 //@ tier: thorough
 //@ timeout: 2700
-//@ symbolic: as c17_terms_payload_corruption_detected at the remaining payload/CRC positions 10, 11, 13..19, 21, 22
-//@ bounds: 1 term of 2 bytes (23-byte file); 11 further positions
+//@ symbolic: as c17_terms_payload_corruption_detected at the remaining payload/CRC positions 10..19, 21, 22 and the length change 2 -> 3
+//@ bounds: 1 term of 2 bytes (23-byte file); 12 further positions
 #[kani::proof]
 #[kani::unwind(14)]
 #[kani::stub(std::backtrace::Backtrace::capture, stub_backtrace)]
@@ -96,9 +96,11 @@ fn c17_terms_payload_corruption_all_positions() {
   assert!(w.is_ok(), "write_terms failed on the harness storage");
   std::mem::forget(w);
   let full = st.bytes().clone();
+  kani::assume(full.len() == 23);
   let mask: u8 = kani::any();
   kani::assume(mask != 0);
-  each_pos!(&full, mask; 10, 11, 13, 14, 15, 16, 17, 18, 19, 21, 22);
+  each_pos!(&full, mask; 10, 11, 12, 13, 14, 15, 16, 17, 18, 19, 21, 22);
+  corrupt_case(&full, 8, 2 ^ 3);
   kani::cover!(mask == 0x80, "high-bit flip");
   std::mem::forget(terms);
 }
